@@ -46,6 +46,15 @@ func plans(prop, tier string) []drv.Plan {
 				}
 			}
 		}
+		// a destination that reports an error for one delivery: still exactly one delivery per Write
+		for _, s := range []shape{{1, 2, 2}, {2, 1, 1}, {1, 3, 2}} {
+			for _, mode := range []string{"waiter", "poller"} {
+				add(s.P, s.W, s.N, mode, "err1", "close", b)
+				if !q {
+					add(s.P, s.W, s.N, mode, "err2", "close", b)
+				}
+			}
+		}
 	case "C11":
 		b := 2
 		if !q {
@@ -79,6 +88,12 @@ func plans(prop, tier string) []drv.Plan {
 			for _, mode := range []string{"waiter", "poller"} {
 				add(s.P, s.W, s.N, mode, "normal", "noclose", b)
 				add(s.P, s.W, s.N, mode, "normal", "close", b)
+			}
+		}
+		// Close racing with the Writes: it must still return, and no producer may block
+		for _, s := range []shape{{1, 1, 1}, {1, 2, 2}, {2, 1, 2}, {1, 2, 1}} {
+			for _, mode := range []string{"waiter", "poller"} {
+				add(s.P, s.W, s.N, mode, "normal", "closeearly", b)
 			}
 		}
 	}
